@@ -1063,6 +1063,21 @@ func (e *Engine) indexAddr(st *State, in *ssa.IndexAddr) ([]*State, bool) {
 	x := e.get(st, in.X)
 	idx := e.get(st, in.Index).(*Term)
 	idx = e.toInt64(idx, in.Index.Type())
+	if idx.Op != OpConst {
+		// a symbolic index is kept only over scalar elements; otherwise fork on its value
+		var elemT types.Type
+		switch u := in.X.Type().Underlying().(type) {
+		case *types.Slice:
+			elemT = u.Elem()
+		case *types.Pointer:
+			elemT = u.Elem().Underlying().(*types.Array).Elem()
+		}
+		if _, isBasic := elemT.Underlying().(*types.Basic); !isBasic {
+			if _, isReg := st.top().regs[in.Index]; isReg {
+				return e.concretizeReg(st, in.Index, e.get(st, in.Index).(*Term), "index")
+			}
+		}
+	}
 	switch c := x.(type) {
 	case SliceV:
 		var lenT *Term = tt.Int(int64(c.Len))
